@@ -105,6 +105,26 @@ def family(tier):
                                     kw[other_pos] = disj(others)
                                 p = props.make_property(sk, pk, act=act, term=term, max_t=max_t, **kw)
                                 out.append(p)
+    # shared topics: an alternative at the split position (or the other event) uses the topic of the terminator or of
+    # the activator, with a different predicate - events are told apart by topic AND predicate
+    for sk, act, term in (('until', None, ev('e', None, veq(1))), ('after_until', ev('s'), ev('e', None, veq(1))), ('after', ev('s', None, veq(1)), None), ('after_until', ev('s', None, veq(0)), ev('e'))):
+        for pk in props.PATTERNS:
+            sp = props.SPLIT_POSITION[pk]
+            two = pk in props.TWO_EVENT
+            wpos = sp or 'beh'
+            other_pos = ('trig' if wpos == 'beh' else 'beh') if two else None
+            for shared in ('e', 's'):
+                if (shared == 'e' and term is None) or (shared == 's' and act is None):
+                    continue
+                for alts in ([ev(shared, None, veq(0)), ev('a')], [ev('a'), ev(shared, None, veq(0))], [ev(shared, None, veq(0)), ev(shared + '2')], [ev('a', None, veq(1)), ev(shared)]):
+                    for max_t in (INF,) + b['time_bounds_s'][:1]:
+                        kw = {wpos: disj(alts)}
+                        if two:
+                            kw[other_pos] = ev('d')
+                        out.append(props.make_property(sk, pk, act=act, term=term, max_t=max_t, **kw))
+                        if two:
+                            kw2 = {wpos: disj([ev('a'), ev('b')]), other_pos: ev(shared, None, veq(0))}
+                            out.append(props.make_property(sk, pk, act=act, term=term, max_t=max_t, **kw2))
     # dedupe
     seen = set()
     res = []
@@ -352,7 +372,7 @@ def replay(w):
 def describe(tier):
     b = bounds(tier)
     return {
-        'rule': f"properties: 4 scope kinds (activator simple, with/without alias; terminator with/without predicate) x 5 pattern kinds x width 1..{b['max_width']} at the position canonical_form splits (behaviour for existence, to see it is left alone) x other event width 1..{b['other_width']} x decorations (plain, predicate on first / all alternatives, alias bound on every alternative and used by the other event or vice versa, activator alias used by every alternative) x time bound (none, {b['time_bounds_s']} s); x all timed traces of length <= {b['trace_len']} (per property the largest length whose complete trace set has <= {b['trace_budget']} traces, never below 2; histogram in outcome_histogram trace_len=*) over mentioned topics + 'o', payload v in {{0,1}} where predicates exist, gaps 0/1/2 s, end slack 0/3 s. Also: disjunctive terminators (never split) on a thinner slice of the other axes; properties with two alternatives are additionally taken through three other routes: API left-nested, derived with but() from a canonicalised property, and API-built with the time window [1 s, 2 s] (min_time has no syntax; read as the start of the window). evaluations = properties; validated = traces on which the property and the conjunction of its canonical form were compared; nontrivial = properties with a disjunction at the split position.",
+        'rule': f"properties: 4 scope kinds (activator simple, with/without alias; terminator with/without predicate) x 5 pattern kinds x width 1..{b['max_width']} at the position canonical_form splits (behaviour for existence, to see it is left alone) x other event width 1..{b['other_width']} x decorations (plain, predicate on first / all alternatives, alias bound on every alternative and used by the other event or vice versa, activator alias used by every alternative) x time bound (none, {b['time_bounds_s']} s); x all timed traces of length <= {b['trace_len']} (per property the largest length whose complete trace set has <= {b['trace_budget']} traces, never below 2; histogram in outcome_histogram trace_len=*) over mentioned topics + 'o', payload v in {{0,1}} where predicates exist, gaps 0/1/2 s, end slack 0/3 s. Also: alternatives (or the other event) that share their topic with the terminator or the activator under a different predicate (4 scope forms x 5 patterns x 2 shared topics x 5 arrangements); disjunctive terminators (never split) on a thinner slice of the other axes; properties with two alternatives are additionally taken through three other routes: API left-nested, derived with but() from a canonicalised property, and API-built with the time window [1 s, 2 s] (min_time has no syntax; read as the start of the window). evaluations = properties; validated = traces on which the property and the conjunction of its canonical form were compared; nontrivial = properties with a disjunction at the split position.",
         'bounds': b,
         'exhaustive': True,
         'assumptions': [
